@@ -108,6 +108,41 @@ PATTERNS = [
     ('utils.SPACE_RE', ['C13'], 'src/common/utils.rs', r'SPACE_RE[^;]*?Regex::new\(r"(.*?)"\)', r'\s+'),
     ('autolink.AUTOLINK_RE', ['C04'], 'src/plugins/cmark/inline/autolink.rs', r'AUTOLINK_RE[^;]*?Regex::new\(r"(.*?)"\)', r'^([a-zA-Z][a-zA-Z0-9+.\-]{1,31}):([^<>\x00-\x20]*)$'),
 ]
+# the raw-HTML rules (Model/Html.lean): the regex source strings the hand-written matchers were written for
+HB = 'src/plugins/html/html_block.rs'
+RX = 'src/plugins/html/utils/regexps.rs'
+HP = ['C01', 'C16']
+PATTERNS += [
+    ('html_block.seq1_open', HP, HB, r'Regex::new\(r#"(\(\?i\)\^<\(script[^"]*?)"#\)', r'(?i)^<(script|pre|style|textarea)(\s|>|$)'),
+    ('html_block.seq1_close', HP, HB, r'Regex::new\(r#"(\(\?i\)</\(script[^"]*?)"#\)', r'(?i)</(script|pre|style|textarea)>'),
+    ('html_block.seq2_open', HP, HB, r'Regex::new\(r#"(\^<!--)"#\)', r'^<!--'),
+    ('html_block.seq2_close', HP, HB, r'Regex::new\(r#"(-->)"#\)', r'-->'),
+    ('html_block.seq3_open', HP, HB, r'Regex::new\(r#"(\^<\\\?)"#\)', r'^<\?'),
+    ('html_block.seq3_close', HP, HB, r'Regex::new\(r#"(\\\?>)"#\)', r'\?>'),
+    ('html_block.seq4_open', HP, HB, r'Regex::new\(r#"(\^<!\[A-Z\])"#\)', r'^<![A-Z]'),
+    ('html_block.seq4_close', HP, HB, r'Regex::new\(r#"(>)"#\)', r'>'),
+    ('html_block.seq5_open', HP, HB, r'Regex::new\(r#"(\^<!\\\[CDATA\\\[)"#\)', r'^<!\[CDATA\['),
+    ('html_block.seq5_close', HP, HB, r'Regex::new\(r#"(\\\]\\\]>)"#\)', r'\]\]>'),
+    ('html_block.seq6_open', HP, HB, r'Regex::new\(&format!\("(\(\?i\)\^</\?\(\{block_names\}\)[^"]*?)"\)\)', r'(?i)^</?({block_names})(\\s|/?>|$)'),
+    ('html_block.seq7_open', HP, HB, r'Regex::new\(&format!\("(\{open_close_tag_re\}[^"]*?)"\)\)', r'{open_close_tag_re}\\s*$'),
+    ('html_block.blank_close', HP, HB, r'Regex::new\(r#"(\^\$)"#\)', r'^$'),
+    ('regexps.attr_name', HP, RX, r'const attr_name\s*: &str = r#"(.*?)"#;', r'[a-zA-Z_:][a-zA-Z0-9:._-]*'),
+    ('regexps.unquoted', HP, RX, r'const unquoted\s*: &str = r#"(.*?)"#;', r'''[^"'=<>`\x00-\x20]+'''),
+    ('regexps.single_quoted', HP, RX, r'const single_quoted\s*: &str = r#"(.*?)"#;', r"'[^']*'"),
+    ('regexps.double_quoted', HP, RX, r'const double_quoted\s*: &str = r#"(.*)"#;\s*\n\s*const attr_value', r'"[^"]*"'),
+    ('regexps.attr_value', HP, RX, r'const attr_value\s*: &str = formatcp!\("(.*?)"\);', r'(?:{unquoted}|{single_quoted}|{double_quoted})'),
+    ('regexps.attribute', HP, RX, r'const attribute\s*: &str = formatcp!\("(.*?)"\);', r'(?:\\s+{attr_name}(?:\\s*=\\s*{attr_value})?)'),
+    ('regexps.open_tag', HP, RX, r'const open_tag\s*: &str = formatcp!\("(.*?)"\);', r'<[A-Za-z][A-Za-z0-9\\-]*{attribute}*\\s*/?>'),
+    ('regexps.close_tag', HP, RX, r'const close_tag\s*: &str = r#"(.*?)"#;', r'</[A-Za-z][A-Za-z0-9\-]*\s*>'),
+    ('regexps.comment', HP, RX, r'const comment\s*: &str = r#"(.*?)"#;', r'<!---->|<!--(?:-?[^>-])(?:-?[^-])*-->'),
+    ('regexps.processing', HP, RX, r'const processing\s*: &str = r#"(.*?)"#;', r'<[?][\s\S]*?[?]>'),
+    ('regexps.declaration', HP, RX, r'const declaration\s*: &str = r#"(.*?)"#;', r'<![A-Z]+\s+[^>]*>'),
+    ('regexps.cdata', HP, RX, r'const cdata\s*: &str = r#"(.*?)"#;', r'<!\[CDATA\[[\s\S]*?\]\]>'),
+    ('regexps.HTML_TAG_RE', HP, RX, r'HTML_TAG_RE[^;]*?formatcp!\("(.*?)"\)', r'^(?:{open_tag}|{close_tag}|{comment}|{processing}|{declaration}|{cdata})'),
+    ('regexps.HTML_OPEN_CLOSE_TAG_RE', HP, RX, r'HTML_OPEN_CLOSE_TAG_RE[^;]*?formatcp!\("(.*?)"\)', r'^(?:{open_tag}|{close_tag})'),
+    ('regexps.HTML_LINK_OPEN', HP, RX, r'HTML_LINK_OPEN[^;]*?Regex::new\(r#"(.*?)"#\)', r'^<a[>\s]'),
+    ('regexps.HTML_LINK_CLOSE', HP, RX, r'HTML_LINK_CLOSE[^;]*?Regex::new\(r#"(.*?)"#\)', r'^</a\s*>'),
+]
 pat_defs = []
 for name, props, rel, rx, want in PATTERNS:
     m = re.search(rx, src(rel), re.S)
@@ -120,6 +155,12 @@ for name, props, rel, rx, want in PATTERNS:
         expect(name, props, got == want, 'pattern in source is %r, the hand matcher models %r' % (got, want))
     pat_defs.append('def %s : List Nat := %s' % ('pat_' + name.replace('.', '_'), lean_nat_list(list((got or '').encode('utf-8')))))
 defs += pat_defs
+# the 62 block-level element names of start condition 6 (generated; obligation in Props/GenHtml.lean)
+hb = src('src/plugins/html/utils/blocks.rs')
+m = anchor('html.HTML_BLOCKS', HP, r'pub const HTML_BLOCKS : \[&str; (\d+)\] = \[(.*?)\];', hb)
+names = re.findall(r'"([^"]*)"', m.group(2)) if m else []
+if m: expect('html.HTML_BLOCKS_len', HP, len(names) == int(m.group(1)), 'declared %s names, found %d' % (m.group(1), len(names)))
+defs.append('def htmlBlockNames : List (List Nat) := [' + ', '.join(lean_nat_list(list(n.encode('utf-8'))) for n in names) + ']')
 
 # ------------------------------------------------------------------ text scanner stop set, two copies (C08, C12)
 skip = src('src/parser/inline/builtin/skip_text.rs')
